@@ -8,6 +8,24 @@ sys.path.insert(0, os.path.dirname(os.path.dirname(os.path.dirname(os.path.abspa
 from .domain import G, St, new_int, const_int, new_ptr, new_obj, new_top, trange
 from .engine import Ctx, Interp, Fields, Agg, write, A1_BOUND
 
+# field positions of the two plain structs the pre-/post-conditions talk about; bound to the CURRENT tree's declaration order by
+# bind_fields() (a reordered struct must neither raise an alarm nor silently redirect a precondition)
+EFM, EFE = 0, 1                  # ExtendedFloat { mant, exp }
+NUE, NUM_, NUD = 0, 1, 2         # Number { exponent, mantissa, many_digits }
+
+
+def bind_fields(facts):
+    global EFM, EFE, NUE, NUM_, NUD
+    idx = {}
+    for s_ in facts.lib.get("structs", []):
+        idx[s_["path"]] = [f_["name"] for f_ in s_["fields"]]
+    ef, nu = idx.get("extended_float::ExtendedFloat"), idx.get("number::Number")
+    if ef and "mant" in ef and "exp" in ef:
+        EFM, EFE = ef.index("mant"), ef.index("exp")
+    if nu and all(n_ in nu for n_ in ("exponent", "mantissa", "many_digits")):
+        NUE, NUM_, NUD = nu.index("exponent"), nu.index("mantissa"), nu.index("many_digits")
+    return {"ExtendedFloat": ef, "Number": nu}
+
 
 def byte_regions(model):
     if model == "valid":
@@ -95,7 +113,7 @@ def truncation_postconditions(ctx, inst):
         why = "integer exhausted=%s fraction exhausted=%s" % (L1 in st.ghost, L2 in st.ghost)
         d = rv.d if isinstance(rv, Fields) else {}
         if name == "parse_number":
-            md = d.get((("f", 2),))
+            md = d.get((("f", NUD),))
             mdv = st.get_iv(md) if isinstance(md, int) and md in G.base else None
             ok = both or mdv == (1, 1)
             why += " many_digits=%s" % (mdv,)
@@ -110,10 +128,10 @@ def truncation_postconditions(ctx, inst):
                             kids[1] = True
                         if par == ("L", "arg2"):
                             kids[2] = True
-                mant = d.get((("f", 1),))
+                mant = d.get((("f", NUM_),))
                 alias = False
                 for k, a in st.env.items():
-                    if len(k) == 5 and k[2] == ("v", 1) and k[3] == ("f", 0) and k[4] == ("f", 1) and a == mant:
+                    if len(k) == 5 and k[2] == ("v", 1) and k[3] == ("f", 0) and k[4] == ("f", NUM_) and a == mant:
                         dk = st.env.get(k[:2] + ("discr",))
                         if isinstance(dk, int) and dk in G.base and st.get_iv(dk) == (1, 1):
                             alias = True
@@ -163,9 +181,9 @@ def round_postconditions(ctx, inst, facts):
         cells = [(k, a) for k, a in st.env.items() if len(k) == 4 and k[1] == 1 and k[2] == "pointee"]
         m = e = None
         for k, a in cells:
-            if k[3] == ("f", 0):
+            if k[3] == ("f", EFM):
                 m = a
-            if k[3] == ("f", 1):
+            if k[3] == ("f", EFE):
                 e = a
         ok = False
         why = "result not tracked"
@@ -197,14 +215,14 @@ def cutoff_postconditions(ctx, inst, facts):
     for st, rv in ctx.exit_states:
         if ("called",) in st.ghost or not isinstance(rv, Fields):
             continue
-        m, e = rv.d.get((("f", 0),)), rv.d.get((("f", 1),))
+        m, e = rv.d.get((("f", EFM),)), rv.d.get((("f", EFE),))
         if not (isinstance(m, int) and isinstance(e, int) and m in G.base and e in G.base):
             continue
         M, E = st.get_iv(m), st.get_iv(e)
         if name == "compute_float":
             q = ctx.arg_atoms.get(1)
         else:
-            q = st.env.get((ctx.arg_frame, 1, "pointee", ("f", 0)))
+            q = st.env.get((ctx.arg_frame, 1, "pointee", ("f", NUE)))
         if not (isinstance(q, int) and q in G.base):
             continue
         Q = st.get_iv(q)
@@ -240,7 +258,7 @@ def protocol_postconditions(ctx, inst, facts):
         ok = False
         why = "result not tracked"
         if isinstance(rv, Fields):
-            m, e = rv.d.get((("f", 0),)), rv.d.get((("f", 1),))
+            m, e = rv.d.get((("f", EFM),)), rv.d.get((("f", EFE),))
             if isinstance(m, int) and isinstance(e, int) and m in G.base and e in G.base:
                 M, E = st.get_iv(m), st.get_iv(e)
                 why = "mant %s exp %s" % (M, E)
@@ -312,7 +330,7 @@ def slow_postconditions(ctx, inst, facts):
         n_early += 1
         ok = False
         if isinstance(rv, Fields):
-            m, e = rv.d.get((("f", 0),)), rv.d.get((("f", 1),))
+            m, e = rv.d.get((("f", EFM),)), rv.d.get((("f", EFE),))
             se = st.ghost.get(("result", "scientific_exponent"))
             if isinstance(m, int) and isinstance(e, int) and m in G.base and e in G.base and isinstance(se, int) and se in G.base:
                 M, E, S = st.get_iv(m), st.get_iv(e), st.get_iv(se)
@@ -446,10 +464,10 @@ def analyze_bits(facts, fty):
             "is_denormal": [("value", lambda st, rv: rv, (1, 1) if den else (0, 0))],
             "exponent": [("value", lambda st, rv: rv, want_e)],
             "mantissa": [("value", lambda st, rv: rv, want_m)],
-            "b": [("mant", lambda st, rv: rv.d.get((("f", 0),)) if isinstance(rv, Fields) else None, want_m),
-                  ("exp", lambda st, rv: rv.d.get((("f", 1),)) if isinstance(rv, Fields) else None, want_e)],
-            "bh": [("mant", lambda st, rv: rv.d.get((("f", 0),)) if isinstance(rv, Fields) else None, (2 * want_m[0] + 1, 2 * want_m[1] + 1)),
-                   ("exp", lambda st, rv: rv.d.get((("f", 1),)) if isinstance(rv, Fields) else None, (want_e[0] - 1, want_e[1] - 1))],
+            "b": [("mant", lambda st, rv: rv.d.get((("f", EFM),)) if isinstance(rv, Fields) else None, want_m),
+                  ("exp", lambda st, rv: rv.d.get((("f", EFE),)) if isinstance(rv, Fields) else None, want_e)],
+            "bh": [("mant", lambda st, rv: rv.d.get((("f", EFM),)) if isinstance(rv, Fields) else None, (2 * want_m[0] + 1, 2 * want_m[1] + 1)),
+                   ("exp", lambda st, rv: rv.d.get((("f", EFE),)) if isinstance(rv, Fields) else None, (want_e[0] - 1, want_e[1] - 1))],
         }
         for nm, checks in spec.items():
             inst = helpers[nm]
@@ -469,8 +487,8 @@ def analyze_bits(facts, fty):
                 if e0 == emax and f0 != 0:
                     continue
                 def mkx(st, key, e0=e0, e1=e1, f0=f0, f1=f1):
-                    st.env[key + (("f", 0),)] = new_int(f0, f1)
-                    st.env[key + (("f", 1),)] = new_int(e0, e1)
+                    st.env[key + (("f", EFM),)] = new_int(f0, f1)
+                    st.env[key + (("f", EFE),)] = new_int(e0, e1)
                     return Agg(key)
                 exits = run1(inst, {1: mkx})
                 got = hull(exits, lambda st, rv: rv) if exits else None
@@ -607,15 +625,15 @@ def analyze_round_classes(facts, fty):
                 ptr = st.env.get((fr, 1))
                 d = G.ptr.get(ptr)
                 if d and d[0] == "loc":
-                    st.env[d[1] + (("f", 0),)] = const_int(m0) if m0 == m1 else new_int(m0, m1)
-                    st.env[d[1] + (("f", 1),)] = const_int(e)
+                    st.env[d[1] + (("f", EFM),)] = const_int(m0) if m0 == m1 else new_int(m0, m1)
+                    st.env[d[1] + (("f", EFE),)] = const_int(e)
             G.reset()
             c2 = analyze_fn(facts, inst, "valid", ctx=ctx, pre=pre)
             got = None
             okk = bool(c2.exit_states)
             for st, rv in c2.exit_states:
                 cells = {k[3]: a for k, a in st.env.items() if len(k) == 4 and k[1] == 1 and k[2] == "pointee"}
-                m, ee = cells.get(("f", 0)), cells.get(("f", 1))
+                m, ee = cells.get(("f", EFM)), cells.get(("f", EFE))
                 if not (isinstance(m, int) and isinstance(ee, int) and m in G.base and ee in G.base):
                     okk = False
                     continue
@@ -660,8 +678,8 @@ def analyze_window_classes(facts, fty):
             ptr = st.env.get((fr, argi))
             d = G.ptr.get(ptr)
             if d and d[0] == "loc":
-                st.env[d[1] + (("f", 0),)] = new_int(1 << 63, top - 1)
-                st.env[d[1] + (("f", 1),)] = const_int(e0) if e0 == e1 else new_int(e0, e1)
+                st.env[d[1] + (("f", EFM),)] = new_int(1 << 63, top - 1)
+                st.env[d[1] + (("f", EFE),)] = const_int(e0) if e0 == e1 else new_int(e0, e1)
         G.reset()
         ctx.arg_log = {"mask::lower_n_halfway": [], "mask::lower_n_mask": []}
         ov = {1: (lambda st, key: new_int(0, errs))} if errs is not None else None
@@ -719,9 +737,9 @@ def analyze_truncflag(facts, fty):
         a1 = st.env.get((fr, 1))
         d = G.ptr.get(a1) if isinstance(a1, int) else None
         if d and d[0] == "loc":
-            st.env[d[1] + (("f", 1),)] = new_int(1, (1 << 63))
-            st.env[d[1] + (("f", 0),)] = new_int(-(1 << 31), (1 << 31) - 1)
-            st.env[d[1] + (("f", 2),)] = const_int(1)
+            st.env[d[1] + (("f", NUM_),)] = new_int(1, (1 << 63))
+            st.env[d[1] + (("f", NUE),)] = new_int(-(1 << 31), (1 << 31) - 1)
+            st.env[d[1] + (("f", NUD),)] = const_int(1)
     G.reset()
     if compact:
         scale = None
@@ -748,7 +766,7 @@ def analyze_truncflag(facts, fty):
         for st, rv in c2.exit_states:
             declined = False
             if isinstance(rv, Fields):
-                e = rv.d.get((("f", 1),))
+                e = rv.d.get((("f", EFE),))
                 if isinstance(e, int) and e in G.base and st.get_iv(e)[1] < 0:
                     declined = True
             if declined or ("visited", "compute_error") in st.ghost:
